@@ -85,6 +85,19 @@ func runC13(c *Ctx) {
 		} else {
 			v4, v6 := c.importConstIn("banman", "ipv4"), c.importConstIn("banman", "ipv6")
 			for i := range tagPhi.Edges {
+				// an incoming edge on which nothing is written (the
+				// unsupported-family way out, carried to the join by result
+				// variables) pairs nothing
+				reaches := false
+				ir.WalkCtx(tagPhi.Block(), 0, tagPhi.Block().Preds[i], nil, func(in ssa.Instruction) bool {
+					if in == writes[0] {
+						reaches = true
+					}
+					return !reaches
+				})
+				if !reaches {
+					continue
+				}
 				k, isC := ir.ConstInt(tagPhi.Edges[i])
 				ipv := ir.Strip(ipPhi.Edges[i])
 				if ct, ok := ipv.(*ssa.ChangeType); ok {
